@@ -699,12 +699,14 @@ def _run_e2c(prog, rep):
                     if not (st["k"] == "assign" and st["rv"]["k"] == "aggregate" and st["rv"].get("variant") == "InContext"):
                         continue
                     excluded = False
-                    for g in _dg(body, tr, b):
-                        sw = switch_edges(body, tr, g.src)
-                        variants = {e.variant for e in sw if e.variant}
-                        if "Cancelled" not in variants:
+                    for xb in sorted(body.reachable()):
+                        sw = switch_edges(body, tr, xb)
+                        ce = [e for e in sw if e.variant == "Cancelled"]
+                        if not ce or not body.dominates(xb, b):
                             continue
-                        if (g.variant and g.variant != "Cancelled") or (g.variant is None):
+                        # the error was classified before this wrap, and the wrap does not lie on what follows the Cancelled edge
+                        # (a classification kept in a boolean is followed with its constant)
+                        if all(b not in reach_const_aware(body, e.dst) for e in ce):
                             excluded = True
                     rep.check(excluded, "E2.c", "%s :: wrap only after Cancelled is excluded #%d" % (c.id, b), sp_str(st["sp"]),
                               "this InContext is built on an edge of the switch that lists Cancelled, other than the Cancelled edge",
